@@ -26,7 +26,8 @@
 EXTENDS Naturals, Integers, Sequences, FiniteSets, TLC, Json, SequencesExt
 
 CONSTANTS Lists,      \* the value-type lists signatures are made of (a set of sequences of strings)
-          MaxTypes, MaxFuncs, MaxEdits
+          MaxTypes, MaxFuncs, MaxEdits,
+          EditOps     \* which API edits may occur (subset of {"build", "findadd", "nametype", "delete", "root", "gc"})
 
 VARIABLES arena,    \* Seq of [p, r, entry, live]; id = position - 1
           dmap,     \* ArenaSet.already_in_arena: set of <<key, id>>, key = <<p, r, entry>>
@@ -188,10 +189,10 @@ Next ==
         \/ ParseFunc(ti, imp, <<>>, root)
         \/ \E kind \in {"block", "calli"}, tj \in DOMAIN i2t : ParseFunc(ti, imp, <<kind, tj>>, root)
   \/ EndFuncs
-  \/ \E s \in Sigs, root \in BOOLEAN : BuildFunc(s[1], s[2], <<>>, root) \/ \E b \in Sigs : BuildFunc(s[1], s[2], <<b[1], b[2]>>, root)
-  \/ \E f \in DOMAIN funcs : DeleteFunc(f) \/ \E b \in BOOLEAN : SetRoot(f, b)
-  \/ \E s \in Sigs : FindAdd(s[1], s[2]) \/ NameType(s[1], s[2])
-  \/ Gc
+  \/ "build" \in EditOps /\ \E s \in Sigs, root \in BOOLEAN : BuildFunc(s[1], s[2], <<>>, root) \/ \E b \in Sigs : BuildFunc(s[1], s[2], <<b[1], b[2]>>, root)
+  \/ \E f \in DOMAIN funcs : ("delete" \in EditOps /\ DeleteFunc(f)) \/ ("root" \in EditOps /\ \E b \in BOOLEAN : SetRoot(f, b))
+  \/ \E s \in Sigs : ("findadd" \in EditOps /\ FindAdd(s[1], s[2])) \/ ("nametype" \in EditOps /\ NameType(s[1], s[2]))
+  \/ "gc" \in EditOps /\ Gc
   \/ Emit
 Spec == Init /\ [][Next]_tvars
 
